@@ -101,6 +101,16 @@ type Obs struct {
 	Txt   *[]int   `json:"txt,omitempty"`
 	Bases []string `json:"bases,omitempty"`
 	note  string
+	after *After // the operands re-read after the operation (not part of the observation record itself)
+}
+
+// After is what the operand objects hold after the operation: ints are immutable, so every operator must leave
+// value and representation of its operands alone (math/big receivers make in-place updates an easy mistake).
+type After struct {
+	N  int         // operands re-read
+	V  [3]*big.Int // values afterwards (nil: could not be read back as an int)
+	R  [3]string   // representation afterwards: "w" | "B" | "?" (read from program output)
+	R0 [3]string   // representation observed before the operation (compiled-expression route), "" otherwise
 }
 
 // Line is one line of the trace.
@@ -116,25 +126,35 @@ type Line struct {
 	Base *int   `json:"base,omitempty"`
 	Txt  *[]int `json:"txt,omitempty"`
 	O    Obs    `json:"o"`
+	// operands after the operation (value, representation) and, where observed, their representation before it
+	AA  *Z     `json:"aa,omitempty"`
+	RAA string `json:"raa,omitempty"`
+	RA0 string `json:"ra0,omitempty"`
+	AB  *Z     `json:"ab,omitempty"`
+	RAB string `json:"rab,omitempty"`
+	RB0 string `json:"rb0,omitempty"`
+	AC  *Z     `json:"ac,omitempty"`
+	RAC string `json:"rac,omitempty"`
+	RC0 string `json:"rc0,omitempty"`
 }
 
 // Case is one operation to perform.
 type Case struct {
-	Op   string `json:"op"`
-	Form string `json:"form,omitempty"`
-	Via  string `json:"via"` // api | eval | src
-	A    string `json:"a,omitempty"`
-	B    string `json:"b,omitempty"`
-	C    string `json:"c,omitempty"`
-	RA   string `json:"ra,omitempty"`
-	RB   string `json:"rb,omitempty"`
-	RC   string `json:"rc,omitempty"`
-	SA   int    `json:"sa,omitempty"` // literal spelling of the operands in source text
-	SB   int    `json:"sb,omitempty"`
-	SC   int    `json:"sc,omitempty"`
-	Base int    `json:"base,omitempty"`
-	Txt  string `json:"txt,omitempty"`
-	NoB  bool   `json:"nobase,omitempty"` // int(text) without the base argument
+	Op      string `json:"op"`
+	Form    string `json:"form,omitempty"`
+	Via     string `json:"via"` // api | eval | src
+	A       string `json:"a,omitempty"`
+	B       string `json:"b,omitempty"`
+	C       string `json:"c,omitempty"`
+	RA      string `json:"ra,omitempty"`
+	RB      string `json:"rb,omitempty"`
+	RC      string `json:"rc,omitempty"`
+	SA      int    `json:"sa,omitempty"` // literal spelling of the operands in source text
+	SB      int    `json:"sb,omitempty"`
+	SC      int    `json:"sc,omitempty"`
+	Base    int    `json:"base,omitempty"`
+	Txt     string `json:"txt,omitempty"`
+	NoB     bool   `json:"nobase,omitempty"` // int(text) without the base argument
 	a, b, c *big.Int
 }
 
@@ -270,9 +290,20 @@ func (e *apiEnv) builtin(name string, args ...py.Object) (py.Object, error) {
 
 func (e *apiEnv) run(c *Case) Obs {
 	var val py.Object
+	var operands [3]py.Object
+	nops := arity(c.Op)
+	if nops >= 1 {
+		operands[0] = mk(c.a, c.RA)
+	}
+	if nops >= 2 {
+		operands[1] = mk(c.b, c.RB)
+	}
+	if nops >= 3 {
+		operands[2] = mk(c.c, c.RC)
+	}
 	r := pyrun.Guard(20*time.Second, func() error {
 		var err error
-		a := mk(c.a, c.RA)
+		a := operands[0]
 		switch arity(c.Op) {
 		case 1:
 			switch c.Op {
@@ -310,7 +341,7 @@ func (e *apiEnv) run(c *Case) Obs {
 				return fmt.Errorf("harness: unknown unary op %s", c.Op)
 			}
 		case 2:
-			b := mk(c.b, c.RB)
+			b := operands[1]
 			switch {
 			case c.Op == "divmod":
 				var q, m py.Object
@@ -336,7 +367,7 @@ func (e *apiEnv) run(c *Case) Obs {
 				val, err = f(a, b)
 			}
 		case 3:
-			val, err = py.Pow(a, mk(c.b, c.RB), mk(c.c, c.RC))
+			val, err = py.Pow(a, operands[1], operands[2])
 		case 0: // parse
 			if c.NoB {
 				val, err = py.Call(py.IntType, py.Tuple{py.String(c.Txt)}, nil)
@@ -349,7 +380,25 @@ func (e *apiEnv) run(c *Case) Obs {
 	if r.Exc == "GoError" {
 		common.Inconclusive("property=C07 %s", r.Msg)
 	}
-	return obsOfResult(r, val)
+	o := obsOfResult(r, val)
+	if !r.TimedOut && nops > 0 {
+		o.after = rereadObjects(operands[:nops])
+	}
+	return o
+}
+
+// rereadObjects reads the operand objects again after the operation.
+func rereadObjects(objs []py.Object) *After {
+	af := &After{N: len(objs)}
+	for i, ob := range objs {
+		func() {
+			defer func() { recover() }()
+			if v, r, ok := intOf(ob); ok {
+				af.V[i], af.R[i] = v, r
+			}
+		}()
+	}
+	return af
 }
 
 // ---------------------------------------------------------------------------------------
@@ -416,7 +465,11 @@ func pyQuote(s string) string {
 
 // expr renders the case as one Python expression ("" if the case needs statements).
 func (c *Case) expr() string {
-	a := lit(c.a, c.SA)
+	return c.exprWith(lit(c.a, c.SA), lit(c.b, c.SB), lit(c.c, c.SC))
+}
+
+// exprWith renders the expression over the given operand texts (literals, or names bound to the operands).
+func (c *Case) exprWith(a, b, cc string) string {
 	switch arity(c.Op) {
 	case 1:
 		switch c.Op {
@@ -438,7 +491,6 @@ func (c *Case) expr() string {
 			return "not " + a
 		}
 	case 2:
-		b := lit(c.b, c.SB)
 		if c.Form == "i" {
 			return ""
 		}
@@ -452,7 +504,7 @@ func (c *Case) expr() string {
 			return a + " " + s + " " + b
 		}
 	case 3:
-		return "pow(" + a + ", " + lit(c.b, c.SB) + ", " + lit(c.c, c.SC) + ")"
+		return "pow(" + a + ", " + b + ", " + cc + ")"
 	case 0:
 		if c.Op == "lit" {
 			return c.Txt
@@ -489,12 +541,27 @@ const scaffold = `def show(i, th):
     print(i, res)
 `
 
-// stmt renders the case for the program route: a call of show with a thunk.
+// stmt renders the case for the program route: the operands are bound to names, the operation is a thunk over those
+// names handed to show, and the names are printed again afterwards (an int object must not change under an operator;
+// for an augmented assignment the name xN is the alias of the old object, the thunk rebinds only its own local).
 func (c *Case) stmt(i int) string {
-	if c.Form == "i" {
-		return fmt.Sprintf("def f%d():\n    x = %s\n    x %s= %s\n    return x\nshow(%d, f%d)\n", i, lit(c.a, c.SA), binSym[c.Op], lit(c.b, c.SB), i, i)
+	n := arity(c.Op)
+	if n == 0 {
+		return fmt.Sprintf("show(%d, lambda: %s)\n", i, c.expr())
 	}
-	return fmt.Sprintf("show(%d, lambda: %s)\n", i, c.expr())
+	var b strings.Builder
+	names := [3]string{fmt.Sprintf("x%d", i), fmt.Sprintf("y%d", i), fmt.Sprintf("z%d", i)}
+	lits := [3]string{lit(c.a, c.SA), lit(c.b, c.SB), lit(c.c, c.SC)}
+	for k := 0; k < n; k++ {
+		fmt.Fprintf(&b, "%s = %s\n", names[k], lits[k])
+	}
+	if c.Form == "i" {
+		fmt.Fprintf(&b, "def f%d():\n    x = %s\n    x %s= %s\n    return x\nshow(%d, f%d)\n", i, names[0], binSym[c.Op], names[1], i, i)
+	} else {
+		fmt.Fprintf(&b, "show(%d, lambda: %s)\n", i, c.exprWith(names[0], names[1], names[2]))
+	}
+	fmt.Fprintf(&b, "print('o', %d, %s)\n", i, strings.Join(names[:n], ", "))
+	return b.String()
 }
 
 // parseOut turns one payload of program output into an observation (results read from text carry no representation).
@@ -543,7 +610,23 @@ func runProgram(cs []*Case) []Obs {
 	ctx.Close()
 	out := make([]Obs, len(cs))
 	got := make([]bool, len(cs))
+	afters := map[int]*After{}
 	for _, l := range strings.Split(r.Stdout, "\n") {
+		if strings.HasPrefix(l, "o ") { // operands printed again after the operation
+			f := strings.Fields(l)
+			if len(f) >= 3 {
+				if i, err := strconv.Atoi(f[1]); err == nil && i >= 0 && i < len(cs) && len(f)-2 <= 3 {
+					af := &After{N: len(f) - 2}
+					for k, t := range f[2:] {
+						if v, ok := new(big.Int).SetString(t, 10); ok {
+							af.V[k], af.R[k] = v, "?"
+						}
+					}
+					afters[i] = af
+				}
+			}
+			continue
+		}
 		sp := strings.IndexByte(l, ' ')
 		if sp <= 0 {
 			continue
@@ -570,12 +653,48 @@ func runProgram(cs []*Case) []Obs {
 			out[i] = runProgram([]*Case{cs[i]})[0] // isolate the case whose output is missing
 		}
 	}
+	for i := range cs {
+		if got[i] && out[i].after == nil {
+			out[i].after = afters[i]
+		}
+	}
 	return out
 }
 
+// runEval compiles and evaluates the case as one expression.  The operands are first bound to names by a compiled
+// assignment of their literals (so the objects can be inspected before and after the operation).
 func runEval(ctx *pyrun.Ctx, c *Case) Obs {
-	r := ctx.Eval(c.expr(), 30*time.Second)
-	return obsOfResult(r, r.Value)
+	n := arity(c.Op)
+	if n == 0 {
+		r := ctx.Eval(c.expr(), 30*time.Second)
+		return obsOfResult(r, r.Value)
+	}
+	names := []string{"ea", "eb", "ec"}[:n]
+	lits := []string{lit(c.a, c.SA), lit(c.b, c.SB), lit(c.c, c.SC)}
+	var src strings.Builder
+	for k, nm := range names {
+		fmt.Fprintf(&src, "%s = %s\n", nm, lits[k])
+	}
+	if pre := ctx.Exec(src.String(), 30*time.Second); pre.Outcome() != "ok" || ctx.Mod == nil {
+		// the operands could not even be bound: evaluate the plain expression, its outcome is the observation
+		r := ctx.Eval(c.expr(), 30*time.Second)
+		return obsOfResult(r, r.Value)
+	}
+	objs := make([]py.Object, n)
+	var before [3]string
+	for k, nm := range names {
+		objs[k] = ctx.Mod.Globals[nm]
+		if _, r, ok := intOf(objs[k]); ok {
+			before[k] = r
+		}
+	}
+	r := ctx.Eval(c.exprWith("ea", "eb", "ec"), 30*time.Second)
+	o := obsOfResult(r, r.Value)
+	if !r.TimedOut {
+		o.after = rereadObjects(objs)
+		o.after.R0 = before
+	}
+	return o
 }
 
 // ---------------------------------------------------------------------------------------
@@ -1025,6 +1144,17 @@ func describe(c *Case, o Obs) map[string]interface{} {
 		ob["note"] = o.note
 	}
 	d["observed"] = ob
+	if af := o.after; af != nil {
+		var as []string
+		for k := 0; k < af.N; k++ {
+			if af.V[k] == nil {
+				as = append(as, "unreadable")
+			} else {
+				as = append(as, af.V[k].String()+" as "+af.R[k])
+			}
+		}
+		d["operands_after"] = as
+	}
 	return d
 }
 
@@ -1172,6 +1302,7 @@ func main() {
 	shards := make([]bytes.Buffer, nShards)
 	index := make([][]int, nShards)
 	opCount, viaCount, kindCount, repCount := map[string]int{}, map[string]int{}, map[string]int{}, map[string]int{}
+	operandsReread := 0
 	for i, c := range g.cases {
 		ln := Line{Op: c.Op, Form: c.Form, O: obs[i]}
 		n := arity(c.Op)
@@ -1190,6 +1321,19 @@ func main() {
 				b = 0
 			}
 			ln.Base, ln.Txt = &b, codes(c.Txt)
+		}
+		if af := obs[i].after; af != nil {
+			zs := []**Z{&ln.AA, &ln.AB, &ln.AC}
+			rs := []*string{&ln.RAA, &ln.RAB, &ln.RAC}
+			r0 := []*string{&ln.RA0, &ln.RB0, &ln.RC0}
+			for k := 0; k < af.N && k < n; k++ {
+				if af.V[k] == nil {
+					*rs[k] = "unreadable" // no longer an int object at all
+					continue
+				}
+				*zs[k], *rs[k], *r0[k] = encZ(af.V[k]), af.R[k], af.R0[k]
+			}
+			operandsReread += af.N
 		}
 		js, err := json.Marshal(ln)
 		if err != nil {
@@ -1329,6 +1473,7 @@ func main() {
 	rep.Extra["lines_by_observed_kind"] = kindCount
 	rep.Extra["lines_by_representation"] = repCount
 	rep.Extra["lines_rejected_by_spec"] = len(hits)
+	rep.Extra["operands_reread_after_the_operation"] = operandsReread
 	rep.Extra["programs_compiled"] = progs
 	rep.Extra["cases_dropped_after_timeout"] = total - len(g.cases)
 	rep.Extra["run_wall_s"] = runWall
